@@ -71,6 +71,13 @@ CLAIMED = {
                   "compared with the pi expansion through a guarded accessor.",
              note="Trusts TLC, gen/pi_hex.py's big-integer arithmetic (cross-checked by the published vectors), hook H1 (add-only, cfg(physis_verif)).",
              ref="5 C11"),
+ "C13": dict(cat="model_checking", tech="TLC check of Tex.tla addressing/palette laws + TLC trace validation of every decoded pixel against the specification's integer BCn decoder",
+             text="Tex.tla defines header, pixel <- (block, texel) addressing with stacked depth slices and the BC1/BC3/BC5/BGRA decode in integer arithmetic; "
+                  "TLC checks the addressing bijection for all geometries 1..9 x 1..9 and the palette/mode laws. Per-block endpoint/selector sweeps, a geometry "
+                  "sweep incl. non-multiples of 4 and depth, attribute words and random payloads are decoded by the real library and every pixel is "
+                  "recomputed by TLC from the same file bytes.",
+             note="Trusts TLC; BCn arithmetic conventions as recalled from the Direct3D description; BC1 black-entry alpha excluded by the property.",
+             ref="5 C13"),
 }
 HOOK_COMMITS = ["5eeb305"]
 REASON_PENDING = "check not built yet in this session (see DESIGN.md section 5); will be claimed when its trace specification exists"
